@@ -35,6 +35,30 @@ theorem countOk_iff (g : Graph) (t : List MEv) :
     · omega
     · exact h1
 
+/-- What the attempt monitor decides: as `countOk_iff`, but over ALL execution intervals — a creation of an object that
+ended with a failed pre-step is an execution too. -/
+theorem attemptOk_iff (g : Graph) (t : List MEv) :
+    attemptOk g t = true ↔
+      ∀ j ∈ intervals t,
+        let same := (intervals t).filter (fun i => i.cls == j.cls && inScope g j.cls j.w i.w)
+        same.length ≤ triesOf g j.cls j.w ∨ same.any (fun i => overran g (intervals t) i) = true := by
+  unfold attemptOk attemptViolations
+  rw [filterMap_ite_isEmpty]
+  constructor
+  · intro h j hj
+    have := h j hj
+    simp only [Bool.and_eq_false_imp, decide_eq_true_eq, Bool.not_eq_false'] at this
+    intro same
+    by_cases hc : same.length > triesOf g j.cls j.w
+    · right; exact this hc
+    · left; omega
+  · intro h j hj
+    simp only [Bool.and_eq_false_imp, decide_eq_true_eq, Bool.not_eq_false']
+    intro hc
+    rcases h j hj with h1 | h1
+    · omega
+    · exact h1
+
 /-- Clone sources, flat (not yet expanded) tests, dry runs and the shared root are never executed:
 the run decision is `False`, nothing is requested from the state control and no state changes. -/
 theorem never_run_flat_or_clone_source (g : Graph) (s : State) (n w : Nat)
